@@ -32,10 +32,11 @@ STYLE = {NodeEvent.LEAF: "extant gene", NodeEvent.SPECIATION: "speciation", Node
          NodeEvent.HORIZONTAL_TRANSFER: "horizontal gene transfer", EdgeEvent.FULL_LOSS: "loss"}
 
 
-def census(case, m, syn, ordered, orientation, sizes, per_kind, params, cl):
-    """Run layout+render once; return list of failure strings; add geometric claims to cl."""
+def census(case, m, syn, ordered, orientation, sizes, per_kind, params, cl, shared=None):
+    """Run layout+render once; return list of failure strings; add geometric claims to cl.
+    shared: (rec, onode, snode) built once per item: both orientations (and any earlier drawing) use the same objects."""
     fails = []
-    rec, onode, snode = RC.build_rec(case, m, syn, ordered)
+    rec, onode, snode = shared if shared is not None else RC.build_rec(case, m, syn, ordered)
     cnt, ev, kept = D.RC.evaluate(case.O, case.S, m)
     # the horizontal run receives (h, w): sizes are universally quantified, and the swap makes both orientations
     # take the same comparisons, so the joint exploration does not multiply paths
@@ -121,30 +122,33 @@ def census(case, m, syn, ordered, orientation, sizes, per_kind, params, cl):
     return fails, text, lay
 
 
-def run_both(ctx, case, m, syn, ordered, sizes, per_kind, params):
+def run_both(ctx, case, m, syn, ordered, sizes, per_kind, params, prior=None):
     cl = c14.Clauses(ctx)
     fails = []
+    shared = RC.build_rec(case, m, syn, ordered)
+    RC.draw_prior(case, shared[0].input, prior)
     for orient in (Orientation.VERTICAL, Orientation.HORIZONTAL):
-        f, _text, _lay = census(case, m, syn, ordered, orient, sizes, per_kind, params, cl)
+        f, _text, _lay = census(case, m, syn, ordered, orient, sizes, per_kind, params, cl, shared)
         fails += f
     return fails, cl
 
 
-def concrete_failures(desc, m, syn, ordered, per_kind, sym_params, values):
+def concrete_failures(desc, m, syn, ordered, per_kind, sym_params, values, prior=None):
     case = H.Case(desc)
     m = {int(k): v for k, v in m.items()}
     syn2 = {int(k): tuple(v) for k, v in syn.items()} if syn is not None else None
     nb = c14.count_branches(case, m)
     sizes, params = RC.concrete_sizes(values, nb, per_kind, sym_params)
     try:
-        fails, cl = run_both(None, case, m, syn2, ordered, sizes, per_kind, params)
+        fails, cl = run_both(None, case, m, syn2, ordered, sizes, per_kind, params, prior)
     except Exception as e:
         return [f"exception {type(e).__name__}: {e}"]
     return fails + cl.failed_concrete()
 
 
 def replay(data):
-    cf = concrete_failures(data["desc"], data["mapping"], data.get("syn"), data.get("ordered"), data["per_kind"], data["sym_params"], RC.unfrac(data["values"]))
+    cf = concrete_failures(data["desc"], data["mapping"], data.get("syn"), data.get("ordered"), data["per_kind"], data["sym_params"], RC.unfrac(data["values"]),
+                           data.get("after"))
     for t in cf[:6]:
         print("  reproduced:", t)
     return bool(cf)
@@ -163,7 +167,7 @@ def worker(item):
         ctx, sizes, params = RC.make_ctx(nb, per_kind, sym_params, item["max_paths"], item["budget_s"])
         for _ in ctx.paths():
             try:
-                fails, cl = run_both(ctx, case, m, syn, ordered, sizes, per_kind, params)
+                fails, cl = run_both(ctx, case, m, syn, ordered, sizes, per_kind, params, item.get("after"))
             except Exception as e:
                 fails, cl = [f"exception {type(e).__name__}: {e}"], c14.Clauses(ctx)
             nstruct = 8 * case.O.n
@@ -175,12 +179,12 @@ def worker(item):
                 model = ctx.prove(z3.And(*[c for _, c in claims]))
             if bad or model is not None:
                 vals = model if model is not None else ctx.model_values()
-                cf = concrete_failures(desc, item["mapping"], item.get("syn"), ordered, per_kind, sym_params, vals)
+                cf = concrete_failures(desc, item["mapping"], item.get("syn"), ordered, per_kind, sym_params, vals, item.get("after"))
                 out["violations"].append({
-                    "kind": "census", "text": f"{(bad or cf)[:3]}; input {desc}; mapping {item['mapping']}; sizes {RC.frac_str(vals)}; concrete: {cf[:2]}",
+                    "kind": "census", "text": f"{(bad or cf)[:3]}; input {desc}; mapping {item['mapping']}" + (f" (drawn after reconciliation {item['after']} of the same input object)" if item.get("after") else "") + f"; sizes {RC.frac_str(vals)}; concrete: {cf[:2]}",
                     "signature": {"kind": "census", "desc": desc, "mapping": item["mapping"], "what": (bad or cf or ['?'])[0][:60]},
                     "data": {"desc": desc, "mapping": item["mapping"], "syn": item.get("syn"), "ordered": ordered, "per_kind": per_kind,
-                             "sym_params": sym_params, "values": RC.frac_str(vals)},
+                             "sym_params": sym_params, "values": RC.frac_str(vals), "after": item.get("after")},
                     "confirmed": bool(cf)})
                 break
             out["discharged"] += nstruct + len(cl.items)
